@@ -122,7 +122,7 @@ def product_space(nls, css, block=None, **kw):
             for ci, cs in enumerate(css):
                 if block is not None and (ni + ci) % block[0] != block[1]:
                     continue
-                yield pedal_case(nl, cs, ni + ci, exact=exact, **kw)
+                yield pedal_case(nl, cs, 3 * ni + ci, exact=exact, **kw)
 
     return gen
 
